@@ -164,3 +164,7 @@ PROPS["C06"]["rule"] = PROPS["C06"].get("rule", "") + "; race06 (implementation 
 
 # C12 "StoreLogs followed by GetLog returns an equal log" is exercised through the WAL as well
 PROPS["C12"]["streams"] = PROPS["C12"]["streams"] + [S("seqapi", 80, 2000, vm=(3, 40), vm_maxlen=5000)]
+
+# C14 "after Close returns, every LogStore and StableStore method returns ErrClosed": the sequential
+# stream probes every method (also empty batches / empty ranges) after each Close
+PROPS["C14"]["streams"] = PROPS["C14"]["streams"] + [S("seqapi", 60, 1500, vm=(3, 40), vm_maxlen=5000)]
